@@ -191,6 +191,15 @@ def make_ids(rng, n, mode):
         return rng.sample(range(2 ** 31 - 10 ** 6, 2 ** 31 - 1), n)
     if mode == 'huge':
         return rng.sample(range(2 ** 40, 2 ** 40 + 10 ** 6), n)
+    if mode == 'radix':
+        # ids on the lattice r + q*B with B near the node count and r small: different sorted id tuples
+        # collide under every mixed-radix packing sum(id_i * B^i) of a face key (e.g. (a, b, c+B) and
+        # (a, b+1, c)) — the class of "one integer key per face" rewrites (seeds r2-packed-facet-key-
+        # node-count, r5-facet-key-base)
+        B = n + rng.choice([0, 1, 1, 2])
+        R = rng.choice([2, 3, 4])
+        Q = -(-n // R) + rng.choice([0, 1, 2])
+        return rng.sample([r + q * B for q in range(Q) for r in range(1, R + 1)], n)
     raise ValueError(mode)
 
 
